@@ -8,11 +8,14 @@ import UralModel.Gen.ProtocolRe
 
 Property theorems only (model: `Model/Redirect.lean`; helper lemmas: `Lemmas/Redirect.lean`).
 
-* termination / fixed point / iteration law, proved for ANY target-extraction function
-  (`inferOf_*`) and instantiated (`infer_total`, `infer_fixed_point`, `infer_step_fixed`,
-  `infer_is_iterated_step`, `infer_never_longer`);
+* the loop as the code spells it (`infer_loop_spec`: one turn = `infer_redirection_target`);
+* termination / bound on the number of hops / fixed point / iteration law, proved for ANY
+  target-extraction function (`inferOf_*`) and instantiated (`infer_hops_bounded`, `infer_total`,
+  `infer_fixed_point`, `infer_step_fixed`, `infer_is_iterated_step`, `infer_never_longer`,
+  `infer_shrinks`, `infer_of_cleaned`);
 * embeddedness of what the modelled extraction returns (`domainSplit_suffix`,
-  `redirectSearch_embedded`, `infer_target_embedded`, `infer_result_chain`);
+  `redirectSearch_embedded`, `infer_redirection_target_spec`, `infer_target_embedded`,
+  `infer_step_embedded_of_clean`, `infer_result_chain`, `infer_result_chain_strict`);
 * table obligations tying the hand-written matchers to the regexes found in the source.
 -/
 namespace Ural.Props.C15
@@ -265,6 +268,54 @@ theorem inferOf_hops_clean (u : Str) :
             some (iterStep (stepOf target) (i + 1) (stepOf target u))
           rw [hs]; exact hall i (by omega)
 
+/-- **the number of hops is bounded by the length of the cleaned url.**  The result of the loop is
+reached by exactly `n` turns that follow a target (`infer_redirection_target(xᵢ) = xᵢ₊₁` for every
+`i < n`, each strictly shorter than the cleaned form of the one before) and the next turn finds
+nothing to follow (`infer_redirection_target(result) = None`); `n ≤ len(cleaned url) ≤ len(url)`,
+and `n` turns of the bounded loop are enough. -/
+theorem inferOf_hops_bounded (u : Str) :
+    ∃ n, n ≤ (cleanedUrl u).length ∧ iterStep (stepOf target) n u = inferOf target u ∧
+      (∀ i, i < n → targetOf target (iterStep (stepOf target) i u) =
+          some (iterStep (stepOf target) (i + 1) u) ∧
+        (iterStep (stepOf target) (i + 1) u).length <
+          (cleanedUrl (iterStep (stepOf target) i u)).length) ∧
+      targetOf target (inferOf target u) = none ∧
+      inferFuel target n u = inferOf target u := by
+  induction u using length_induction with
+  | _ u ih =>
+    rcases hop_cases target u with ⟨h0, _, h2⟩ | ⟨t, h0, hs, hlt, h2⟩
+    · exact ⟨0, Nat.zero_le _, by rw [h2]; rfl, fun i hi => absurd hi (Nat.not_lt_zero _),
+        by rw [h2]; exact h0, by rw [h2]; rfl⟩
+    · obtain ⟨m, hm, him, hall, hend, _⟩ := ih t hlt
+      have hlt' := followed_length_lt target _ t h0
+      have hle := cleanedUrl_length_le t
+      have hit : iterStep (stepOf target) (m + 1) u = inferOf target u := by
+        show iterStep (stepOf target) m (stepOf target u) = inferOf target u
+        rw [hs, h2]; exact him
+      refine ⟨m + 1, by omega, hit, ?_, by rw [h2]; exact hend,
+        by rw [inferFuel_eq_iterStep]; exact hit⟩
+      intro i hi
+      cases i with
+      | zero =>
+        show targetOf target u = some (iterStep (stepOf target) 0 (stepOf target u)) ∧
+          (iterStep (stepOf target) 0 (stepOf target u)).length < (cleanedUrl u).length
+        rw [hs]; exact ⟨h0, hlt'⟩
+      | succ i =>
+        show targetOf target (iterStep (stepOf target) i (stepOf target u)) =
+            some (iterStep (stepOf target) (i + 1) (stepOf target u)) ∧
+          (iterStep (stepOf target) (i + 1) (stepOf target u)).length <
+            (cleanedUrl (iterStep (stepOf target) i (stepOf target u))).length
+        rw [hs]; exact hall i (by omega)
+
+/-- the result of the loop is the argument itself, or strictly shorter than the CLEANED argument -/
+theorem inferOf_shrinks (u : Str) :
+    inferOf target u = u ∨ (inferOf target u).length < (cleanedUrl u).length := by
+  rcases hop_cases target u with ⟨_, _, h2⟩ | ⟨t, h0, _, _, h2⟩
+  · exact Or.inl h2
+  · right
+    rw [h2]
+    exact Nat.lt_of_le_of_lt (inferOf_length_le target t) (followed_length_lt target _ t h0)
+
 /-- what a level of the recursion does with a target `t` is what it does with the cleaned form of
 `t`: both resolve to the same string, or each to itself -/
 theorem inferOf_hop_reads_cleaned (t : Str) :
@@ -276,13 +327,39 @@ end Generic
 
 /-! ## the statements for `infer_redirection` -/
 
-/-- **termination.**  `infer` is a total function on all strings (its definition is accepted
-by well-founded recursion on `len(url)` with the code's own guard), and its value is reached
-by at most `len(url)` recursive calls: the fuel-bounded recursion with fuel `len(url)` never
-runs out. -/
+/-- **the loop, as the code spells it** (infer_redirection.py:104-113): one turn asks
+`infer_redirection_target`; `None` → the argument of the turn comes back as it is; otherwise the
+non-recursive form returns the target and the recursive form goes on with it. -/
+theorem infer_loop_spec (u : Str) :
+    inferStep u = (inferRedirectionTarget u).getD u ∧
+    infer u = (match inferRedirectionTarget u with
+      | some t => infer t
+      | none => u) :=
+  ⟨stepOf_eq_hop inferTarget u, inferOf_eq_hop inferTarget u⟩
+
+/-- **bounded number of steps.**  `infer_redirection(u)` is reached by exactly `n` hops with
+`n ≤ len(cleaned u) ≤ len(u)`: `infer_redirection_target(xᵢ) = xᵢ₊₁` for `i < n`
+(`x₀ = u`, `xᵢ₊₁` strictly shorter than the cleaned `xᵢ`), `xₙ` is the result and
+`infer_redirection_target(xₙ) = None`; the loop bounded by `n` turns returns it. -/
+theorem infer_hops_bounded (u : Str) :
+    ∃ n, n ≤ (cleanedUrl u).length ∧ iterStep inferStep n u = infer u ∧
+      (∀ i, i < n → inferRedirectionTarget (iterStep inferStep i u) =
+          some (iterStep inferStep (i + 1) u) ∧
+        (iterStep inferStep (i + 1) u).length < (cleanedUrl (iterStep inferStep i u)).length) ∧
+      inferRedirectionTarget (infer u) = none ∧
+      inferFuel inferTarget n u = infer u :=
+  inferOf_hops_bounded inferTarget u
+
+/-- **termination.**  `infer` is a function on all strings (the loop, written as a tail recursion,
+is accepted by well-founded recursion on `len(url)` with the code's own guard), its value is
+reached by at most `len(cleaned url)` hops (`infer_hops_bounded`), and the loop bounded by
+`len(url)` turns never runs out. -/
 theorem infer_total (u : Str) :
-    (∃ r, infer u = r) ∧ inferFuel inferTarget u.length u = infer u :=
-  ⟨⟨_, rfl⟩, inferFuel_eq inferTarget _ u (Nat.le_refl _)⟩
+    (∃ n, n ≤ (cleanedUrl u).length ∧ n ≤ u.length ∧ inferFuel inferTarget n u = infer u) ∧
+    inferFuel inferTarget u.length u = infer u := by
+  obtain ⟨n, hn, _, _, _, hf⟩ := infer_hops_bounded u
+  exact ⟨⟨n, hn, Nat.le_trans hn (cleanedUrl_length_le u), hf⟩,
+    inferFuel_eq inferTarget _ u (Nat.le_refl _)⟩
 
 /-- **fixed point.**  `infer_redirection(infer_redirection(u)) == infer_redirection(u)` -/
 theorem infer_fixed_point (u : Str) : infer (infer u) = infer u :=
@@ -333,6 +410,18 @@ theorem clean_once_is_not_a_fixed_point :
 /-- the result is never longer than the input -/
 theorem infer_never_longer (u : Str) : (infer u).length ≤ u.length :=
   inferOf_length_le inferTarget u
+
+/-- **strict shrink of the whole result**: `infer_redirection(u)` is `u` itself or strictly
+shorter than the cleaned `u` -/
+theorem infer_shrinks (u : Str) : infer u = u ∨ (infer u).length < (cleanedUrl u).length :=
+  inferOf_shrinks inferTarget u
+
+/-- resolving the cleaned form of the argument gives the same result, unless the argument is
+returned as it is (nothing followed) -/
+theorem infer_of_cleaned (u : Str) : infer (cleanedUrl u) = infer u ∨ infer u = u := by
+  rcases inferOf_hop_reads_cleaned inferTarget u with h | ⟨h, _⟩
+  · exact Or.inl h.symm
+  · exact Or.inr h
 
 /-- **the function reads its argument through the cleaned url only** (control characters removed,
 stripped — what every url function of the library does to its input): two strings with the same
@@ -420,6 +509,34 @@ theorem infer_target_embedded (u : Str) : Embedded u (inferStep u) := by
     · exact Or.inr (inferTarget_embedded _ _ ht)
     · exact Or.inl rfl
 
+/-- **what `infer_redirection_target` returns** is embedded in the cleaned argument and strictly
+shorter than it -/
+theorem infer_redirection_target_spec (u t : Str) (h : inferRedirectionTarget u = some t) :
+    EmbeddedIn (cleanedUrl u) t ∧ t.length < (cleanedUrl u).length := by
+  refine ⟨?_, followed_length_lt inferTarget _ t h⟩
+  unfold inferRedirectionTarget targetOf followed at h
+  cases ht : inferTarget (cleanedUrl u) with
+  | none => rw [ht] at h; exact absurd h (by simp)
+  | some t' =>
+    rw [ht] at h
+    simp only [] at h
+    split at h
+    · injection h with h; rw [← h]; exact inferTarget_embedded _ _ ht
+    · exact absurd h (by simp)
+
+/-- on an argument that is read as it is (`cleanedUrl u = u`: no control character, no blank at
+either end — `cleanedUrl_eq_self`) one step returns the argument or a target embedded in the
+argument ITSELF -/
+theorem infer_step_embedded_of_clean (u : Str) (h : cleanedUrl u = u) :
+    inferStep u = u ∨ (EmbeddedIn u (inferStep u) ∧ (inferStep u).length < u.length) := by
+  rw [(infer_loop_spec u).1]
+  cases ht : inferRedirectionTarget u with
+  | none => exact Or.inl rfl
+  | some t =>
+    have := infer_redirection_target_spec u t ht
+    rw [h] at this
+    exact Or.inr this
+
 /-- the cleaned url is the url minus some of its characters, in order … -/
 theorem cleanedUrl_sublist (u : Str) : (cleanedUrl u).Sublist u := by
   unfold cleanedUrl strip rstrip lstrip UrlParts.stripControl
@@ -465,6 +582,23 @@ theorem infer_result_chain (u : Str) :
   rw [iterStep_succ_apply]
   exact infer_target_embedded _
 
+/-- **the whole result is reached through genuinely embedded, strictly shrinking targets**: the
+chain `u = x₀, …, xₙ = infer u` of `infer_hops_bounded` (`n ≤ len(cleaned u)`) has every `xᵢ₊₁`
+embedded in the cleaned `xᵢ` (the `r = u` alternative of `Embedded` is not used) and strictly
+shorter than it; in particular `infer u ≠ u` implies `n ≥ 1` and `infer u` strictly shorter than
+the cleaned `u` (`infer_shrinks`). -/
+theorem infer_result_chain_strict (u : Str) :
+    ∃ n, n ≤ (cleanedUrl u).length ∧ iterStep inferStep n u = infer u ∧
+      (∀ i, i < n → EmbeddedIn (cleanedUrl (iterStep inferStep i u)) (iterStep inferStep (i + 1) u) ∧
+        (iterStep inferStep (i + 1) u).length < (cleanedUrl (iterStep inferStep i u)).length) ∧
+      (infer u ≠ u → 0 < n) := by
+  obtain ⟨n, h1, h2, h3, _, _⟩ := infer_hops_bounded u
+  refine ⟨n, h1, h2, fun i hi => infer_redirection_target_spec _ _ (h3 i hi).1, ?_⟩
+  intro hne
+  cases n with
+  | zero => exact absurd h2.symm hne
+  | succ n => exact Nat.succ_pos n
+
 /-! ## non-vacuity (computed through the fuel-driven form, equal to `infer` by `infer_total`) -/
 
 example : inferFuel inferTarget 200 "http://a.com/?url=http%3A%2F%2Fb.com%2F%3Fu%3D%2Fx".toList
@@ -486,6 +620,14 @@ example : inferStep "http://a.com/?u=http%3A%2F%2Fb.com%2Fp%3F%09l%3D%2Fz".toLis
     followed inferTarget (cleanedUrl "http://b.com/p?\tl=/z".toList) = some "http://b.com/z".toList ∧
     inferFuel inferTarget 200 "http://a.com/?u=http%3A%2F%2Fb.com%2Fp%3F%09l%3D%2Fz".toList = "http://b.com/z".toList ∧
     inferFuel inferTarget 200 "a.com?url=http%3A%2F%2Fb.com%2Fp%3Fnext%3D%2Fz%C2%85%20".toList = "http://b.com/z".toList := by
+  decide +kernel
+-- the public one-hop function: a target, `None` (guard: not shorter; nothing found; empty cache tail)
+example : inferRedirectionTarget " http://a.com/?url=http%3A%2F%2Fb.com%2F%3Fu%3D%2Fx\n".toList
+      = some "http://b.com/?u=/x".toList ∧
+    inferRedirectionTarget "http://b.com/?u=/x".toList = some "http://b.com/x".toList ∧
+    inferRedirectionTarget "http://b.com/x".toList = none ∧
+    inferRedirectionTarget "http://x&u=/p".toList = none ∧
+    inferRedirectionTarget "http://x.cdn.ampproject.org/c/ ".toList = none := by
   decide +kernel
 example : Embedded "\x00http://a.com/x?redirect=/z".toList "http://a.com/z".toList :=
   Or.inr (Or.inr ⟨"http://a.com/x?".toList, "redirect".toList, "/z".toList, [],
